@@ -96,10 +96,8 @@ class Builder:
                  ("message", 2 if main and not self.msg_used and not self.no_cg else 0),
                  ("selfdestruct", 2 if main and not self.in_rep else 0),
                  ("nested", 4 if main and not self.in_rep else 0),
-                 # (`...` spreads are driven by the boundary cases only: on the unchanged driver an error raised AT the instruction that
-                 #  consumes the spread count leaves num_varargs set - open known finding C05-num-varargs - and a random program that
-                 #  catches such an error and goes on would run with a corrupted argument count)
-                 ("spreadlocal", 0), ("spreadefun", 0), ("spreadbad", 0),
+                 # (`...` spreads into varargs efuns; a spread into a local function needs a varargs declaration and is not generated)
+                 ("spreadefun", 2), ("spreadbad", 3),
                  ("catch", 7), ("raise", 3), ("throw", 2), ("safe", 3 if main and not self.in_safe else 0), ("setcg", 2 if main and self.use_setcg and not self.no_cg else 0),
                  ("install", 2 if main and not self.use_setcg else 0), ("installbad", 2 if main and not self.use_setcg else 0), ("load", 2 if main and not self.in_rep else 0),
                  ("clone", 2 if main else 0),
@@ -230,28 +228,21 @@ class Builder:
             self.prep += pr
             stmts += st
             ops.append(op)
-        elif k == "spreadlocal":
-            # a `...` spread into a local function: F_EXPAND_VARARGS adds to num_varargs, the call instruction consumes it
-            b, o = self.sub(fctx, depth)
-            f = self.fn(fctx, b, params="int x, int y, int z")
-            stmts.append("a = ({ 1, 2 }); %s (0, a...);" % f)
-            ops.append("(call local %s 3 3 %s)" % (t, " ".join(o)))
         elif k == "spreadefun":
-            # … into a varargs efun that completes
+            # a `...` spread into a varargs efun that completes: F_EXPAND_VARARGS adds to num_varargs, F_EFUNV consumes it
             i = self.fresh()
             stmts.append('a = ({ 1, 2 }); VL ("say s%d-" + sprintf ("%%d%%d", a...));' % i)
-            ops.append("(say s%d-12)" % i)
+            ops.append("(spread 2) (consume) (say s%d-12)" % i)
         elif k == "spreadbad":
             # … into a varargs efun whose FIXED argument fails the type check (raised by the instruction itself, after the
             # spread has been counted): the count must not survive the error
-            i = self.fresh()
             which = rng.choice(["call_other", "sprintf"])
             if which == "call_other":
-                stmts.append('a = ({ 1, 2, 3 }); call_other (0, "f%d", a...);' % i)
-                ops.append("(raisemsg *Bad argument 1 to call_other(), Expected: string or array or object Got: 0.)")
+                stmts.append('a = ({ 1, 2, 3 }); call_other (0, "nofn", a...);')
+                ops.append("(spread 3) (consume) (craise Bad argument 1 to call_other<>, Expected: string or array or object Got: 0.)")
             else:
                 stmts.append('a = ({ 1, 2, 3 }); s = sprintf (0, a...);')
-                ops.append("(raisemsg *Bad argument 1 to sprintf(), Expected: string Got: 0.)")
+                ops.append("(spread 3) (consume) (craise Bad argument 1 to sprintf<>, Expected: string Got: 0.)")
             return True
         elif k == "selfdestruct":
             # an object destructs itself and goes on executing: the frames that are unwound (or returned through) belong to a
@@ -642,7 +633,8 @@ class C05(Prop):
                 "NV.C05.tie_context_fields_saved", "NV.C05.tie_every_field_saved_is_restored", "NV.C05.tie_context_globals",
                 "NV.C05.tie_frame_registers", "NV.C05.tie_frame_saved_is_restored", "NV.C05.tie_all_globals_classified",
                 "NV.C05.tie_classes_match_source", "NV.C05.tie_command_giver_stack", "NV.C05.tie_callback_handlers",
-                "NV.C05.tie_backend_shapes", "NV.C05.tie_catch_value_order", "NV.C05.tie_handler_flag", "NV.C05.tie_error_handler_slots", "NV.C05.tie_vital_destruct_order", "NV.C05.tie_error_handlers_are_leaves", "NV.C05.tie_handler_effects",
+                "NV.C05.tie_backend_shapes", "NV.C05.tie_catch_value_order", "NV.C05.tie_handler_flag", "NV.C05.tie_error_handler_slots", "NV.C05.tie_vital_destruct_order", "NV.C05.tie_error_handlers_are_leaves", "NV.C05.tie_handler_effects", "NV.C05.tie_spread_count", "NV.C05.consume_clears_spread_count", "NV.C05.tie_restore_clears_spread_count",
+                "NV.C05.restoreContext_spread",
                 "NV.C05.vital_records_before_blanking", "NV.C05.vital_nested_refused", "NV.C05.popN_fixNames", "NV.C05.vitalFinish_good", "NV.C05.tie_handler_limit_state", "NV.C05.tie_hook_globals_apart", "NV.C05.raise_sets_catch_value_after_handler",
                 "NV.C05.driver_restores", "NV.C05.model_satisfies_spec_driver",
                 "NV.C05.backend_cycle_restores", "NV.C05.model_satisfies_spec_backend", "NV.C05.restoreContext_verb", "NV.C05.restoreContext_runs_fixNames", "NV.C05.popN_unlinks_efun_contexts", "NV.C05.exec_vk", "NV.C05.execCore_vk", "NV.C05.driver_keeps_last_verb",
@@ -713,6 +705,7 @@ class C05(Prop):
                    "C locals of efuns that are live across a longjmp: inventoried by the translator (41 call-back sites, 4 with an error-handler slot), observed via ASan on 9 efuns, not proved",
                    "value-stack depths inside efuns are approximated (only the depth after recovery is observed)",
                    "the oracle clause for last_verb (qv) is proved for evaluations started outside a command (exec_vk: kept or cleared; driver_keeps_last_verb, top_keeps_last_verb); the probe / heart-beat / catch-value clauses are checked on traces",
+                   "num_varargs: observed after every evaluation (snapshot field nva; probe: array literal / local call / varargs efun first), modelled (spread / consume ops, cleared by restore_context: restoreContext_spread) - 'nva after = before' is proved at state level, not through the induction; spreads into local (varargs) functions are not generated",
                    "'names of the vital objects after = before' is an oracle clause and compared on every trace; proved at state level (restoreContext_runs_fixNames), not through the induction over all programs",
                    "the simul_efun branch of destruct_object's vital block (refused from LPC while a master exists)",
                    "the file-scope context lists of sort_array / unique_array / unique_mapping are modelled as ONE list (efunCtx; handlers unlink the head): proved at state level (popN_unlinks_efun_contexts) + witnesses + tie_handler_effects + nested efun-callback cases on the driver (ASan, by-value result); 'the list after = the list before' is not proved through the induction over all programs, the efun's by-value result is an oracle clause only",
@@ -786,6 +779,8 @@ class C05(Prop):
         out.append("/-- restore_context restores command_giver and the two guards -/\ndef restoreRestoresCgAndGuards : Bool := %s"
                    % ("true" if "command_giver = econ->save_command_giver" in rc and "restore_object_limits" in rc else "false"))
         pops = len(re.findall(r"pop_control_stack\s*\(\)", rc))
+        out.append("/-- restore_context clears the spread count: `num_varargs = 0;` -/\ndef restoreClearsSpreadCount : Bool := %s"
+                   % ("true" if pos(rc, "num_varargs = 0") >= 0 else "false"))
         out.append("/-- restore_context: number of pop_control_stack() calls -/\ndef restorePopFrameCalls : Nat := %d" % pops)
         pc = body("src/error_context.c", "pop_context")
         out.append("/-- pop_context relinks the chain and clears the error state -/\ndef popContextRelinksAndClears : Bool := %s"
@@ -1089,6 +1084,16 @@ class C05(Prop):
                 E.log("C05 translator: handler %s no longer assigns %s (the state an abandoned efun leaves behind)" % want)
         out.append("/-- handlers of T_ERROR_HANDLER slots that call back into LPC or raise an error -/\n"
                    "def errorHandlersThatCallBack : List String := %s" % lst(sorted(set(bad_handlers))))
+        # (8d) F_EFUNV: the spread count is taken and CLEARED before the argument types are checked (the check can raise an error)
+        try:
+            ei = re.sub(r"/\*.*?\*/", "", open(os.path.join(E.REPO, "src/interpret.c")).read(), flags=re.S)
+            cm = re.search(r"case\s+F_EFUNV\s*:(.*?)continue\s*;", ei, re.S)
+            blk = cm.group(1) if cm else ""
+        except OSError:
+            blk = ""
+        i_take, i_clr, i_chk = pos(blk, "+ num_varargs"), pos(blk, "num_varargs = 0"), pos(blk, "CHECK_TYPES")
+        out.append("/-- eval_instruction, F_EFUNV: `st_num_arg = … + num_varargs; num_varargs = 0;` come before the CHECK_TYPES loop -/\n"
+                   "def efunvClearsSpreadCountBeforeTypeCheck : Bool := %s" % ("true" if 0 <= i_take < i_clr < i_chk else "false"))
         # (9) destruct_object of a vital object: slot pushed and both names recorded BEFORE the name is blanked; the handler
         #     restores both names; the two by-hand back-outs restore the name and drop the slot before raising
         dob = body("src/simulate.c", "destruct_object")
